@@ -367,7 +367,7 @@ PROP = Property(
           "distinct = label set x non-zero column set."),
     strategy=strategy,
     run_case=run_case,
-    budgets={"quick": 12000, "thorough": 300000},
+    budgets={"quick": 12000, "thorough": 60000},
     assumptions=[
         "statvfs results satisfy f_bavail <= f_bfree <= f_blocks",
         "device names are unique within one file",
